@@ -20,6 +20,16 @@ class InjectedWrapperFailure(RuntimeError):
 INJECTED = {'InjectedInterrupt', 'InjectedMemoryError', 'InjectedWrapperFailure'}
 
 
+class _Opaque:
+    __slots__ = ('_f',)
+
+    def __init__(self, f):
+        self._f = f
+
+    def __call__(self, *args):
+        return self._f(*args)
+
+
 class StubWrapper:
     """The simulator's JIT decorator: semantics preserving, returns a *new* callable, counts
     applications and calls, is a pre-emption point and a fault point."""
@@ -52,6 +62,10 @@ class StubWrapper:
                 s.yield_point('wrap-call')
             outer._maybe_fail('call', outer.calls)
             return func(*args)
+        if self.kind == 'opaque':
+            # a decorator written without functools.wraps: no __wrapped__, no __name__ (class-based profilers,
+            # functools.partial, ...)
+            return _Opaque(wrapped)
         wrapped.__name__ = getattr(func, '__name__', 'wrapped')
         wrapped.__wrapped__ = func
         return wrapped
